@@ -77,6 +77,9 @@ def unformatted(rng, nitems=None):
     parts = [item(rng) for _ in range(n)]
     # guarantee: a function with spacing that rustfmt always changes
     parts.insert(rng.below(len(parts) + 1), "fn  %s( ){ }\n" % ident(rng))
+    if rng.chance(35):
+        # multi-byte characters (2, 3 and 4 bytes) at a random place: chunked readers must not split them
+        parts.insert(rng.below(len(parts) + 1), "// caf\u00e9 \u3042\u3044 \U0001f980 na\u00efve \u2014 \u00fc\n" * rng.range(1, 3))
     return "".join(parts)
 
 
